@@ -4,7 +4,7 @@
 From Coq Require Import List NArith Bool.
 From Frugal Require Import Bytes Wire Skip Values Desc Spec Encode Decode Checks Tags State Bitset Alloc DescMap Conc LegacyDefs.
 From Frugal.gen Require Import Params.
-From Frugal.proofs Require Import GenOk BytesWire EncodeSpec SizeExact SkipPut DecodeSafe DecodeRefines RoundTrip Corollaries StateProofs BitsetProofs AllocProofs DescMapProofs ConcProofs BufferContract.
+From Frugal.proofs Require Import GenParams Corollaries.
 From Frugal.props Require Import Examples.
 Import ListNotations.
 
@@ -44,3 +44,8 @@ Example C15_instance :
   (exists v n, decode_object env_ex [] 0 (put (chain 40)) (fresh env_ex 0) = DOk (v, n) [])
   /\ decode_object env_ex [] 0 (put (chain 600)) (fresh env_ex 0) = DErr EDepth.
 Proof. split; [eexists; eexists|]; vm_compute; reflexivity. Qed.
+
+(* the side conditions on the generated constants and tables that the theorems above assume hold
+   for what the translator read from the sources of this run *)
+Theorem C15_side_conditions : params_ok = true.
+Proof. exact params_ok_holds. Qed.
